@@ -51,6 +51,7 @@ type identity struct {
 	nameOK     bool // leaf carries the expected name
 	leafType   bool
 	waitBefore time.Duration // simulated time to let pass before the handshake (expiry)
+	prep       [][2]*certs.Certificate // (leaf, intermediate slot) of earlier attempts by the same impostor
 }
 
 // makeIdentity builds the presented material for kind under the trusted PKI.
@@ -94,6 +95,22 @@ func makeIdentity(r *Run, kind fakeKind, trusted *PKI, name certs.Name, otherNam
 		rogue := NewPKI("rogue")
 		id.leaf, id.inter = rogue.Leaf(certKey, 24*time.Hour, name), rogue.Int
 		id.chainOK = false
+		// the impostor may prepare the ground with earlier attempts that are bound to fail but might leave
+		// something behind in a long-lived verifier: its own ROOT presented in the intermediate slot (with a
+		// leaf that names it as parent), its intermediate under the wrong slot order, ...
+		if r.Intn("prep", 2) == 0 {
+			now := time.Now()
+			l1, err := certs.VerifIssue(rogue.Root, &certs.Identity{PublicKey: certKey, Names: []certs.Name{name}}, certs.Leaf, now, 24*time.Hour)
+			if err == nil {
+				id.prep = append(id.prep, [2]*certs.Certificate{l1, rogue.Root})
+			}
+			if r.Intn("prep", 2) == 0 {
+				id.prep = append(id.prep, [2]*certs.Certificate{rogue.Int, rogue.Root})
+			}
+			if r.Intn("prep", 2) == 0 {
+				id.prep = append(id.prep, [2]*certs.Certificate{id.leaf, rogue.Root})
+			}
+		}
 	case fkSelfSigned:
 		id.leaf = SelfSigned(certKey, name)
 		id.chainOK = false
@@ -349,6 +366,18 @@ func scCounterfeit(r *Run) {
 	for _, c := range cls {
 		c := c
 		r.Go(func() {
+			for j, p := range c.id.prep {
+				pcfg := transport.ClientConfig{Exchanger: c.id.exchanger, Leaf: p[0], Intermediate: p[1], HSTimeout: 3 * time.Second,
+					Verify: transport.VerifyConfig{Store: pki.Store(), Name: srv.Name}}
+				if hidden {
+					pcfg.ServerKEMKey = &srv.KEM.Public
+				}
+				pep := n.Listen(fmt.Sprintf("%s-prep%d", c.tag, j), Addr(c.addr, 4100+j), srv.Addr)
+				pc := transport.NewClient(pep, srv.Addr, pcfg)
+				WithTimeout(r, 30*time.Second, func() { pc.Handshake() })
+				pc.Close()
+				r.CountFault("counterfeit-preparatory-attempt", 1)
+			}
 			if !WithTimeout(r, 30*time.Second, func() { c.herr = c.tc.Handshake() }) {
 				c.tc.Close()
 				c.herr = fmt.Errorf("no return")
